@@ -302,24 +302,38 @@ Proof.
 Qed.
 
 (* ------------------------------------------------------------------ ensure_parsed_docstring *)
+Lemma get_docstring_own c o a t : docstring c o = Some (a :: t) -> get_docstring c o = (Some (a :: t), Some o).
+Proof. intros H. unfold get_docstring. cbn [get_docstring_from]. rewrite H. reflexivity. Qed.
+
+Lemma get_docstring_own_empty c o : docstring c o = Some [] -> get_docstring c o = (None, Some o).
+Proof. intros H. unfold get_docstring. cbn [get_docstring_from]. rewrite H. reflexivity. Qed.
+
+Lemma get_docstring_own_source c o d : docstring c o = Some d -> snd (get_docstring c o) = Some o.
+Proof. intros H. unfold get_docstring. cbn [get_docstring_from]. rewrite H. destruct d; reflexivity. Qed.
+
+Lemma get_docstring_none c o : docstring c o = None -> inherits c o = [] -> get_docstring c o = (None, None).
+Proof. intros H Hi. unfold get_docstring. cbn [get_docstring_from]. rewrite H, Hi. reflexivity. Qed.
+
+Lemma get_docstring_inherited c o : docstring c o = None -> get_docstring c o = get_docstring_from c (inherits c o).
+Proof. intros H. unfold get_docstring. cbn [get_docstring_from]. rewrite H. reflexivity. Qed.
+
 Definition ensure_spec (O : oracles) (c : config) (st : state) (o : oid) : option oid * state :=
-  match docstring c o, pdoc st o with
-  | None, None => (None, st)
-  | None, Some _ => (parent c o, st)
-  | Some [], None => (None, st)
-  | Some [], Some _ => (Some o, st)
-  | Some (_ :: _), Some _ => (Some o, st)
-  | Some (a :: t), None =>
-    let r := parse_docstring O c st o (a :: t) o None SEC_DOCSTRING in
-    (Some o, set_pdoc (snd r) o (Some (fst r)))
+  match get_docstring c o, pdoc st o with
+  | (_, None), None => (None, st)
+  | (_, None), Some _ => (parent c o, st)
+  | (None, Some _), None => (None, st)
+  | (_, Some s), Some _ => (Some s, st)
+  | (Some d, Some s), None =>
+    let r := parse_docstring O c st o d s None SEC_DOCSTRING in
+    (Some s, set_pdoc (snd r) o (Some (fst r)))
   end.
 
 Lemma ensure_eq O c st o : ensure_parsed_docstring O c st o = ensure_spec O c st o.
 Proof.
-  unfold ensure_parsed_docstring, ensure_spec, get_docstring.
-  destruct (docstring c o) as [[|a t]|] eqn:Hd; destruct (pdoc st o) as [pd|] eqn:Hp; cbn [fst snd];
+  unfold ensure_parsed_docstring, ensure_spec, ensure_from.
+  destruct (get_docstring c o) as [[d|] [s|]]; destruct (pdoc st o) as [pd|] eqn:Hp; cbn [fst snd];
     try rewrite Hp; try reflexivity.
-  destruct (parse_docstring O c st o (a :: t) o None SEC_DOCSTRING) as [pd st'] eqn:E. cbn [fst snd].
+  destruct (parse_docstring O c st o d s None SEC_DOCSTRING) as [pd st'] eqn:E. cbn [fst snd].
   cbn [set_pdoc pdoc]. rewrite upd_same. reflexivity.
 Qed.
 
@@ -332,17 +346,25 @@ Lemma ensure_fresh O c st o a t :
   docstring c o = Some (a :: t) -> pdoc st o = None ->
   ensure_parsed_docstring O c st o = (Some o, parsed_state O c st o (a :: t)).
 Proof.
-  intros Hd Hp. rewrite ensure_eq. unfold ensure_spec. rewrite Hd, Hp, parse_docstring_eq. reflexivity.
+  intros Hd Hp. rewrite ensure_eq. unfold ensure_spec.
+  rewrite (get_docstring_own _ _ _ _ Hd), Hp, parse_docstring_eq. reflexivity.
 Qed.
 
+Definition cached_source (c : config) (o : oid) : option oid :=
+  match snd (get_docstring c o) with None => parent c o | Some s => Some s end.
+
 Lemma ensure_cached O c st o pd :
-  pdoc st o = Some pd ->
-  ensure_parsed_docstring O c st o =
-  (match docstring c o with None => parent c o | Some _ => Some o end, st).
+  pdoc st o = Some pd -> ensure_parsed_docstring O c st o = (cached_source c o, st).
 Proof.
-  intros Hp. rewrite ensure_eq. unfold ensure_spec. rewrite Hp.
-  destruct (docstring c o) as [[|a t]|]; reflexivity.
+  intros Hp. rewrite ensure_eq. unfold ensure_spec, cached_source. rewrite Hp.
+  destruct (get_docstring c o) as [[d|] [s|]]; reflexivity.
 Qed.
+
+Lemma cached_source_own c o d : docstring c o = Some d -> cached_source c o = Some o.
+Proof. intros H. unfold cached_source. rewrite (get_docstring_own_source _ _ _ H). reflexivity. Qed.
+
+Lemma cached_source_split c o : docstring c o = None -> inherits c o = [] -> cached_source c o = parent c o.
+Proof. intros H Hi. unfold cached_source. rewrite (get_docstring_none _ _ H Hi). reflexivity. Qed.
 
 Lemma parsed_state_pdoc O c st o t :
   pdoc (parsed_state O c st o t) o = Some (fst (parse_outcome O c (applicable_format c o) t)).
@@ -366,11 +388,14 @@ Lemma ensure_touches O c st o :
   (fst (ensure_parsed_docstring O c st o) = None \/ fst (ensure_parsed_docstring O c st o) = Some o).
 Proof.
   intros Hown. rewrite ensure_eq. unfold ensure_spec.
-  destruct (docstring c o) as [[|a t]|] eqn:Hd; destruct (pdoc st o) as [pd|] eqn:Hp; cbn [fst snd];
-    try (split; [apply touches_only_refl|auto]; fail).
-  - rewrite parse_docstring_eq. cbn [fst snd]. split; [|right; reflexivity].
-    change (touches_only o st (parsed_state O c st o (a :: t))). apply parsed_state_touches.
-  - destruct Hown as [H|H]; congruence.
+  destruct (docstring c o) as [[|a t]|] eqn:Hd.
+  - rewrite (get_docstring_own_empty _ _ Hd). destruct (pdoc st o); cbn [fst snd]; (split; [apply touches_only_refl|auto]).
+  - rewrite (get_docstring_own _ _ _ _ Hd). destruct (pdoc st o) as [pd|] eqn:Hp; cbn [fst snd].
+    + split; [apply touches_only_refl|auto].
+    + rewrite parse_docstring_eq. cbn [fst snd]. split; [|right; reflexivity].
+      change (touches_only o st (parsed_state O c st o (a :: t))). apply parsed_state_touches.
+  - destruct Hown as [H|(Hp & Hi)]; [congruence|]. rewrite (get_docstring_none _ _ Hd Hi), Hp. cbn [fst snd].
+    split; [apply touches_only_refl|auto].
 Qed.
 
 Lemma ensure_step2 O c s1 s2 o :
@@ -379,17 +404,25 @@ Lemma ensure_step2 O c s1 s2 o :
   step2 o s1 s2 (snd (ensure_parsed_docstring O c s1 o)) (snd (ensure_parsed_docstring O c s2 o)).
 Proof.
   intros Hown Hv. pose proof Hv as (Hp & _ & _). rewrite !ensure_eq. unfold ensure_spec. rewrite <- Hp.
-  destruct (docstring c o) as [[|a t]|] eqn:Hd; destruct (pdoc s1 o) as [pd|] eqn:Hp1; cbn [fst snd];
-    try (split; [reflexivity|apply step2_refl; exact Hv]; fail).
-  rewrite !parse_docstring_eq. cbn [fst snd]. split; [reflexivity|].
-  apply (parsed_state_step2 O c s1 s2 o (a :: t) Hv).
+  destruct (docstring c o) as [[|a t]|] eqn:Hd.
+  - rewrite (get_docstring_own_empty _ _ Hd). destruct (pdoc s1 o); cbn [fst snd];
+      (split; [reflexivity|apply step2_refl; exact Hv]).
+  - rewrite (get_docstring_own _ _ _ _ Hd). destruct (pdoc s1 o) as [pd|] eqn:Hp1; cbn [fst snd].
+    + split; [reflexivity|apply step2_refl; exact Hv].
+    + rewrite !parse_docstring_eq. cbn [fst snd]. split; [reflexivity|].
+      apply (parsed_state_step2 O c s1 s2 o (a :: t) Hv).
+  - destruct Hown as [H|(Hp1 & Hi)]; [congruence|]. rewrite (get_docstring_none _ _ Hd Hi), Hp1. cbn [fst snd].
+    split; [reflexivity|apply step2_refl; exact Hv].
 Qed.
 
 Lemma ensure_keeps_own O c st o :
   renders_own_docstring c st o -> renders_own_docstring c (snd (ensure_parsed_docstring O c st o)) o.
 Proof.
-  intros [H|H]; [left; exact H|]. rewrite ensure_eq. unfold ensure_spec, renders_own_docstring. rewrite H.
-  destruct (docstring c o) as [[|a t]|] eqn:Hd; cbn [snd]; try (right; exact H); left; congruence.
+  intros [H|(H & Hi)]; [left; exact H|]. rewrite ensure_eq. unfold ensure_spec, renders_own_docstring. rewrite H.
+  destruct (docstring c o) as [[|a t]|] eqn:Hd.
+  - left; congruence.
+  - left; congruence.
+  - rewrite (get_docstring_none _ _ Hd Hi). cbn [snd]. right. split; assumption.
 Qed.
 
 (* ------------------------------------------------------------------ safe_to_stan *)
@@ -556,23 +589,25 @@ Qed.
 Lemma format_docstring_cached O c st o pd :
   pdoc st o = Some pd ->
   format_docstring O c st o =
-  match (match docstring c o with None => parent c o | Some _ => Some o end) with
+  match cached_source c o with
   | Some src => render_with O c st pd src
   | None => ({| d_body := BUndocumented; d_fields := [] |}, st)
   end.
 Proof.
   intros Hp. unfold format_docstring, render_with. rewrite (ensure_cached _ _ _ _ _ Hp), Hp.
-  destruct (match docstring c o with None => parent c o | Some _ => Some o end) as [src|]; [|reflexivity].
+  destruct (cached_source c o) as [src|]; [|reflexivity].
   destruct (safe_to_stan O c st pd src FB_docstring true SEC_DOCSTRING) as [s st2]. cbn [fst snd].
   destruct (format_fields O c st2 src _) as [fs st3]. reflexivity.
 Qed.
 
 Lemma format_docstring_undocumented O c st o :
-  pdoc st o = None -> (docstring c o = None \/ docstring c o = Some []) ->
+  pdoc st o = None -> ((docstring c o = None /\ inherits c o = []) \/ docstring c o = Some []) ->
   format_docstring O c st o = ({| d_body := BUndocumented; d_fields := [] |}, st).
 Proof.
   intros Hp Hd. unfold format_docstring. rewrite ensure_eq. unfold ensure_spec. rewrite Hp.
-  destruct Hd as [-> | ->]; try rewrite Hp; reflexivity.
+  destruct Hd as [(Hd & Hi) | Hd].
+  - rewrite (get_docstring_none _ _ Hd Hi). reflexivity.
+  - rewrite (get_docstring_own_empty _ _ Hd). reflexivity.
 Qed.
 
 (* render_with when the parsed docstring is plain text *)
@@ -596,7 +631,7 @@ Qed.
 Lemma format_docstring_plain_cached O c st o t d :
   docstring c o = Some d -> pdoc st o = Some (PPlain t) ->
   format_docstring O c st o = ({| d_body := BStan (SPre t); d_fields := [] |}, st).
-Proof. intros Hd Hp. rewrite (format_docstring_cached _ _ _ _ _ Hp), Hd. apply render_with_plain. Qed.
+Proof. intros Hd Hp. rewrite (format_docstring_cached _ _ _ _ _ Hp), (cached_source_own _ _ _ Hd). apply render_with_plain. Qed.
 
 (* ------------------------------------------------------------------ C08_reported_against_object *)
 Lemma parsed_state_reported O c st o t :
@@ -750,23 +785,23 @@ Theorem to_stan_failure_fallback O c st o p t :
   d_body (fst (format_docstring O c (snd r) o)) = BStan (SPre t) /\
   reports (snd (format_docstring O c (snd r) o)) = reports (snd r).
 Proof.
-  intros Hp Hts Hd. cbn zeta. rewrite (format_docstring_cached _ _ _ _ _ Hp), Hd.
+  intros Hp Hts Hd. cbn zeta. rewrite (format_docstring_cached _ _ _ _ _ Hp), (cached_source_own _ _ _ Hd).
   destruct (render_with_to_stan_fails O c st p o Hts) as (B & I & R & _ & Pd). rewrite Hd in B.
   split; [exact B|]. split; [exact I|]. split; [exact R|].
   assert (Hp' : pdoc (snd (render_with O c st (PMark p) o)) o = Some (PMark p)) by (rewrite Pd; exact Hp).
-  rewrite (format_docstring_cached _ _ _ _ _ Hp'), Hd.
+  rewrite (format_docstring_cached _ _ _ _ _ Hp'), (cached_source_own _ _ _ Hd).
   destruct (render_with_to_stan_fails O c (snd (render_with O c st (PMark p) o)) p o Hts) as (B2 & _ & _ & R2 & _).
   rewrite Hd in B2. split; [exact B2|]. apply R2. exact I.
 Qed.
 
 (* a split field (documented by its parent's @ivar): the fallback is the PARENT's docstring, reported against the parent *)
 Theorem to_stan_failure_split_field O c st o q p :
-  docstring c o = None -> pdoc st o = Some (PMark p) -> parent c o = Some q -> to_stan O p = None ->
+  docstring c o = None -> inherits c o = [] -> pdoc st o = Some (PMark p) -> parent c o = Some q -> to_stan O p = None ->
   let r := format_docstring O c st o in
   d_body (fst r) = BStan (match docstring c q with Some t => SPre t | None => SBroken end) /\
   in_parse_errors (snd r) SEC_DOCSTRING q.
 Proof.
-  intros Hd Hp Hq Hts. cbn zeta. rewrite (format_docstring_cached _ _ _ _ _ Hp), Hd, Hq.
+  intros Hd Hi Hp Hq Hts. cbn zeta. rewrite (format_docstring_cached _ _ _ _ _ Hp), (cached_source_split _ _ Hd Hi), Hq.
   destruct (render_with_to_stan_fails O c st p q Hts) as (B & I & _). split; assumption.
 Qed.
 
@@ -779,7 +814,7 @@ Lemma get_parsed_summary_cached_doc O c st o pd d :
   | None => (Some o, get_summary O pd, set_psum st o (Some (get_summary O pd)))
   end.
 Proof.
-  intros Hp Hd. unfold get_parsed_summary. rewrite (ensure_cached _ _ _ _ _ Hp), Hd, Hp. reflexivity.
+  intros Hp Hd. unfold get_parsed_summary. rewrite (ensure_cached _ _ _ _ _ Hp), (cached_source_own _ _ _ Hd), Hp. reflexivity.
 Qed.
 
 Theorem summary_fallback O c st o pd d s :
@@ -976,25 +1011,80 @@ Proof.
 Qed.
 
 (* ------------------------------------------------------------------ format_toc totality *)
-Theorem toc_raises_iff O c st o :
-  fst (format_toc O c st o) = Raised <->
-  toc_enabled c = true /\
-  exists p, pdoc (snd (ensure_parsed_docstring O c st o)) o = Some (PMark p) /\ toc_of O p = TocRaise.
+Lemma get_toc_never_raises O pd : get_toc O pd <> Raised.
+Proof. destruct pd as [t|p|s]; cbn [get_toc]; try discriminate. destruct (toc_of O p); discriminate. Qed.
+
+Theorem toc_total O c st o : fst (format_toc O c st o) <> Raised.
+Proof.
+  unfold format_toc. destruct (ensure_parsed_docstring O c st o) as [src st1].
+  destruct (pdoc st1 o) as [pd|]; [|discriminate]. destruct (toc_enabled c); [|discriminate].
+  pose proof (get_toc_never_raises O pd) as H. destruct (get_toc O pd) as [[tp|]|]; [|discriminate|contradiction].
+  destruct (safe_to_stan O c st1 tp o FB_broken false SEC_DOCSTRING). discriminate.
+Qed.
+
+(* format_toc changes nothing but what ensure_parsed_docstring changes: the toc renderer failing is not reported
+   (report=False) and leaves BROKEN in the side bar only *)
+Theorem toc_state O c st o : snd (format_toc O c st o) = snd (ensure_parsed_docstring O c st o).
 Proof.
   unfold format_toc. destruct (ensure_parsed_docstring O c st o) as [src st1]. cbn [snd].
-  destruct (pdoc st1 o) as [pd|] eqn:Hp.
-  - destruct (toc_enabled c).
-    + destruct pd as [t|p|s]; cbn [get_toc fst].
-      * split; [discriminate|intros (_ & p & E & _); discriminate].
-      * destruct (toc_of O p) as [| | |tp] eqn:Et; cbn [fst].
-        -- split; [discriminate|intros (_ & q & E & Eq); injection E as <-; congruence].
-        -- split; [intros _; split; [reflexivity|exists p; split; [reflexivity|exact Et]]|reflexivity].
-        -- split; [discriminate|intros (_ & q & E & Eq); injection E as <-; congruence].
-        -- destruct (safe_to_stan O c st1 (PMark tp) o FB_broken false SEC_DOCSTRING). cbn [fst].
-           split; [discriminate|intros (_ & q & E & Eq); injection E as <-; congruence].
-      * split; [discriminate|intros (_ & p & E & _); discriminate].
-    + cbn [fst]. split; [discriminate|intros (E & _); discriminate].
-  - cbn [fst]. split; [discriminate|intros (_ & p & E & _); discriminate].
+  destruct (pdoc st1 o) as [pd|]; [|reflexivity]. destruct (toc_enabled c); [|reflexivity].
+  destruct (get_toc O pd) as [[tp|]|]; try reflexivity.
+  unfold safe_to_stan. destruct (to_stan_p O tp); reflexivity.
+Qed.
+
+(* ------------------------------------------------------------------ inherited docstrings *)
+Definition inherited_state (O : oracles) (c : config) (st : state) (o b : oid) (t : text) : state :=
+  set_pdoc (report_errors st b (snd (parse_outcome O c (applicable_format c b) t)) SEC_DOCSTRING) o
+           (Some (fst (parse_outcome O c (applicable_format c b) t))).
+
+Lemma ensure_inherited_fresh O c st o b a t :
+  docstring c o = None -> get_docstring_from c (inherits c o) = (Some (a :: t), Some b) -> pdoc st o = None ->
+  ensure_parsed_docstring O c st o = (Some b, inherited_state O c st o b (a :: t)).
+Proof.
+  intros Hd Hi Hp. rewrite ensure_eq. unfold ensure_spec.
+  rewrite (get_docstring_inherited _ _ Hd), Hi, Hp, parse_docstring_eq. reflexivity.
+Qed.
+
+Lemma inherited_state_pdoc O c st o b t :
+  pdoc (inherited_state O c st o b t) o = Some (fst (parse_outcome O c (applicable_format c b) t)).
+Proof. unfold inherited_state. cbn [set_pdoc pdoc]. apply upd_same. Qed.
+
+Theorem inherited_fallback_is_whole_text O c st o b a t :
+  docstring c o = None -> get_docstring_from c (inherits c o) = (Some (a :: t), Some b) -> pdoc st o = None ->
+  gives_up O c (applicable_format c b) (a :: t) ->
+  format_docstring O c st o =
+  ({| d_body := BStan (SPre (a :: t)); d_fields := [] |}, inherited_state O c st o b (a :: t)) /\
+  (raised_error_is_recorded O -> in_parse_errors (inherited_state O c st o b (a :: t)) SEC_DOCSTRING b) /\
+  (forall sec, mem_pe sec o (parse_errors (inherited_state O c st o b (a :: t))) = true ->
+               o <> b -> mem_pe sec o (parse_errors st) = true).
+Proof.
+  intros Hd Hi Hp Hg. split; [|split].
+  - unfold format_docstring. rewrite (ensure_inherited_fresh _ _ _ _ _ _ _ Hd Hi Hp), inherited_state_pdoc.
+    rewrite (gives_up_outcome _ _ _ _ Hg). reflexivity.
+  - intros Hc. unfold inherited_state, in_parse_errors. cbn [set_pdoc parse_errors].
+    apply report_errors_mem_after. apply (gives_up_errs_nonempty _ _ _ _ Hc Hg).
+  - intros sec Hm Hne. unfold inherited_state in Hm. cbn [set_pdoc parse_errors] in Hm.
+    rewrite report_errors_mem_other in Hm by exact Hne. exact Hm.
+Qed.
+
+Theorem inherited_to_stan_failure O c st o b d p :
+  docstring c o = None -> get_docstring_from c (inherits c o) = (d, Some b) ->
+  pdoc st o = Some (PMark p) -> to_stan O p = None ->
+  let r := format_docstring O c st o in
+  d_body (fst r) = BStan (match docstring c b with Some t => SPre t | None => SBroken end) /\
+  in_parse_errors (snd r) SEC_DOCSTRING b /\
+  (o <> b -> forall sec, mem_pe sec o (parse_errors (snd r)) = mem_pe sec o (parse_errors st)).
+Proof.
+  intros Hd Hi Hp Hts. cbn zeta.
+  assert (Hs : cached_source c o = Some b).
+  { unfold cached_source. rewrite (get_docstring_inherited _ _ Hd), Hi. reflexivity. }
+  rewrite (format_docstring_cached _ _ _ _ _ Hp), Hs.
+  destruct (render_with_to_stan_fails O c st p b Hts) as (B & I & _). split; [exact B|]. split; [exact I|].
+  intros Hne sec. unfold render_with. cbn [snd].
+  destruct (format_fields_touches O c (snd (safe_to_stan O c st (PMark p) b FB_docstring true SEC_DOCSTRING)) b
+                                  (fields_p O (PMark p))) as (F2 & _).
+  destruct (safe_to_stan_touches O c st (PMark p) b FB_docstring true SEC_DOCSTRING) as (F1 & _).
+  destruct (F2 o Hne) as (_ & _ & M2). destruct (F1 o Hne) as (_ & _ & M1). rewrite <- M2, <- M1. reflexivity.
 Qed.
 
 (* ------------------------------------------------------------------ epytext tail *)
@@ -1046,4 +1136,81 @@ Lemma epytext_to_node_stable has_tree d document :
 Proof.
   destruct document as [x|]; cbn [epytext_to_node fst snd]; [repeat split; discriminate|].
   destruct has_tree; cbn [epytext_to_node fst snd]; repeat split; discriminate.
+Qed.
+
+(* since ef2e650: a failing conversion fails on EVERY call (nothing is cached) *)
+Lemma epytext_to_node_fails_alike :
+  epytext_to_node true ConvRaise None = (Raised, None).
+Proof. reflexivity. Qed.
+
+(* to_node is deterministic, whatever the conversion does: the second call returns what the first returned *)
+Lemma epytext_to_node_deterministic has_tree conv document :
+  let r1 := epytext_to_node has_tree conv document in
+  fst (epytext_to_node has_tree conv (snd r1)) = fst r1.
+Proof.
+  destruct document as [x|]; cbn [epytext_to_node fst snd]; [reflexivity|].
+  destruct has_tree; [destruct conv|]; reflexivity.
+Qed.
+
+(* ------------------------------------------------------------------ renderer failure, whatever was called before *)
+Lemma ensure_pdoc_after O c st o a t p errs :
+  docstring c o = Some (a :: t) ->
+  effective_parser O c (applicable_format c o) (a :: t) = PRok (PMark p) errs ->
+  pdoc st o = None \/ pdoc st o = Some (PMark p) ->
+  pdoc (snd (ensure_parsed_docstring O c st o)) o = Some (PMark p) /\
+  fst (ensure_parsed_docstring O c st o) = Some o.
+Proof.
+  intros Hd E [Hp|Hp].
+  - rewrite (ensure_fresh _ _ _ _ _ _ Hd Hp). cbn [fst snd]. rewrite parsed_state_pdoc.
+    unfold parse_outcome. rewrite E. split; reflexivity.
+  - rewrite (ensure_cached _ _ _ _ _ Hp), (cached_source_own _ _ _ Hd). cbn [fst snd]. split; [exact Hp|reflexivity].
+Qed.
+
+Lemma format_docstring_pdoc O c st o : pdoc (snd (format_docstring O c st o)) = pdoc (snd (ensure_parsed_docstring O c st o)).
+Proof.
+  unfold format_docstring. destruct (ensure_parsed_docstring O c st o) as [src st1]. cbn [snd].
+  destruct src as [src|]; [|reflexivity]. destruct (pdoc st1 o) as [pd|]; [|reflexivity].
+  pose proof (safe_to_stan_pdoc O c st1 pd src FB_docstring true SEC_DOCSTRING) as H1.
+  destruct (safe_to_stan O c st1 pd src FB_docstring true SEC_DOCSTRING) as [s st2]. cbn [snd] in H1.
+  pose proof (format_fields_pdoc O c st2 src (fields_p O pd)) as H2.
+  destruct (format_fields O c st2 src (fields_p O pd)) as [fs st3]. cbn [snd] in *. congruence.
+Qed.
+
+Lemma format_summary_pdoc O c st o : pdoc (snd (format_summary O c st o)) = pdoc (snd (ensure_parsed_docstring O c st o)).
+Proof.
+  unfold format_summary, get_parsed_summary. destruct (ensure_parsed_docstring O c st o) as [src st1]. cbn [snd].
+  destruct (psum st1 o) as [ps|]; rewrite safe_to_stan_pdoc; reflexivity.
+Qed.
+
+Lemma run_opk_pdoc O c st k o : pdoc (snd (run_opk O c st k o)) = pdoc (snd (ensure_parsed_docstring O c st o)).
+Proof.
+  destruct k; cbn [run_opk].
+  - pose proof (format_docstring_pdoc O c st o) as H. destruct (format_docstring O c st o). exact H.
+  - pose proof (format_summary_pdoc O c st o) as H. destruct (format_summary O c st o). exact H.
+  - pose proof (toc_state O c st o) as H. destruct (format_toc O c st o). cbn [snd] in *. rewrite H. reflexivity.
+Qed.
+
+Theorem to_stan_failure_any_order O c st o a t p errs (prior : list opk) :
+  docstring c o = Some (a :: t) -> pdoc st o = None ->
+  effective_parser O c (applicable_format c o) (a :: t) = PRok (PMark p) errs -> to_stan O p = None ->
+  let st1 := fold_left (fun s k => snd (run_opk O c s k o)) prior st in
+  d_body (fst (format_docstring O c st1 o)) = BStan (SPre (a :: t)) /\
+  in_parse_errors (snd (format_docstring O c st1 o)) SEC_DOCSTRING o.
+Proof.
+  intros Hd Hp E Hts. cbn zeta.
+  assert (Hinv : forall l s, (pdoc s o = None \/ pdoc s o = Some (PMark p)) ->
+                   let s1 := fold_left (fun s k => snd (run_opk O c s k o)) l s in
+                   pdoc s1 o = None \/ pdoc s1 o = Some (PMark p)).
+  { induction l as [|k l IH]; intros s Hs; cbn [fold_left]; [exact Hs|]. apply IH. right.
+    rewrite run_opk_pdoc. apply (ensure_pdoc_after O c s o a t p errs Hd E Hs). }
+  specialize (Hinv prior st (or_introl Hp)). cbn zeta in Hinv.
+  set (st1 := fold_left (fun s k => snd (run_opk O c s k o)) prior st) in *.
+  destruct Hinv as [Hn|Hs].
+  - rewrite (format_docstring_fresh _ _ _ _ _ _ Hd Hn).
+    assert (Ho : parse_outcome O c (applicable_format c o) (a :: t) = (PMark p, errs))
+      by (unfold parse_outcome; rewrite E; reflexivity).
+    rewrite Ho. cbn [fst].
+    destruct (render_with_to_stan_fails O c (parsed_state O c st1 o (a :: t)) p o Hts) as (B & I & _).
+    rewrite Hd in B. split; assumption.
+  - destruct (to_stan_failure_fallback O c st1 o p (a :: t) Hs Hts Hd) as (B & I & _). split; assumption.
 Qed.
